@@ -18,6 +18,7 @@
   accepted input.
 -/
 import Bebop.Proofs.Parser
+import Bebop.Proofs.ParserTotal
 
 namespace Bebop.Text
 
@@ -52,6 +53,12 @@ theorem C10_next_stops_only_at_eof (t : TR) (hf : (next t).1 = false) (he : (nex
     by the correspondence run: the kernel does not evaluate the String-keyed fact tables). -/
 example : ∃ f, readFile [] false = .ok f := ⟨_, rfl⟩
 example : ∃ f, readFile [32, 9, 13] false = .ok f := ⟨_, rfl⟩
+
+/-- ReadFile terminates: with the fuel the model supplies itself, no loop of the parser runs out of fuel, for
+    every input and both reader behaviours (every loop iteration contains a checked `Next` that consumed input;
+    `UnNext` happens at most once between two of them). -/
+theorem C10_readFile_terminates (inp : List Byte) (ioFail : Bool) : readFile inp ioFail ≠ .fuel :=
+  readFile_never_out_of_fuel inp ioFail
 
 /-- The tie of the tokenizer model to tokenize.go's token tree: every `tt.add` of the regenerated table is
     either a one-byte simple terminal (which the model reads from the table itself) or one of the multi-byte /
